@@ -47,7 +47,7 @@ TIERS = {
     "thorough": {"runs": 200000, "budget_s": 900},
 }
 
-NAMES = ["a", "b", "c", "x y"]
+NAMES = ["a", "b", "c", "x y", ".def_0"]
 ONESHOT = ("is_sat", "is_valid", "is_unsat")
 FAULTS = ["unknown", "error", "die_before", "die_at_start", "stall"]
 
